@@ -30,7 +30,7 @@ TAdd  == /\ Is("add") /\ ~AF /\ Add(Ev.t, Ev.r)
 TRm   == /\ Is("rm") /\ ~AF /\ Remove(Ev.t, Ev.r)
          /\ bad' = Fails({<<"C02", rc' = Ev.rc>>, <<"C09", CbExact(cbs')>>})
          /\ UNCHANGED <<ph, rs>>
-TSrcRm == /\ Is("srcrm") /\ ~AF /\ SrcRemove(Ev.t, Ev.s)
+TSrcRm == /\ Is("srcrm") /\ ~(AF /\ Ev.rc = "err") /\ SrcRemove(Ev.t, Ev.s)
           /\ bad' = Fails({<<"C02", rc' = Ev.rc>>, <<"C09", CbExact(cbs')>>})
           /\ UNCHANGED <<ph, rs>>
 (* with an injected allocation failure an operation may fail, but then it changed nothing (C18); *)
@@ -40,6 +40,10 @@ TFailedOp == /\ l <= Len(JTrace) /\ Ev.e \in {"add", "rm"} /\ AF /\ l' = l + 1
                 \/ /\ Ev.rc # "err" /\ (IF Ev.e = "add" THEN Add(Ev.t, Ev.r) ELSE Remove(Ev.t, Ev.r))
                    /\ bad' = Fails({<<"C18", rc' = Ev.rc>>, <<"C18", CbExact(cbs')>>})
              /\ UNCHANGED <<ph, rs>>
+(* remove-by-source and validation under an injected allocation failure: an error is admissible, a partial effect is not *)
+TSrcRmFailed == /\ Is("srcrm") /\ AF /\ Ev.rc = "err" /\ OpFails(Ev.t)
+                /\ bad' = Fails({<<"C18", CbExact({})>>}) /\ UNCHANGED <<ph, rs>>
+TValFailed == /\ Is("val") /\ AF /\ Ev.rc = "err" /\ bad' = {} /\ UNCHANGED vars
 TFree == /\ Is("free") /\ Free(Ev.t) /\ bad' = Fails({<<"C09", CbExact(cbs')>>}) /\ UNCHANGED <<ph, rs>>
 TFreeQ == /\ Is("freeq") /\ FreeWithoutNotify(Ev.t) /\ bad' = Fails({<<"C09", CbExact(cbs')>>}) /\ UNCHANGED <<ph, rs>>
 TCopy == /\ Is("copyx") /\ CopyExcept(Ev.src, Ev.dst, Ev.s)
@@ -48,7 +52,7 @@ TSwap == /\ Is("swap") /\ Swap(Ev.a, Ev.b) /\ bad' = Fails({<<"C09", CbExact(cbs
 TDiff == /\ Is("diff") /\ NotifyDiff(Ev.new, Ev.old, Ev.s)
          /\ bad' = Fails({<<"C09", CbExact(cbs')>>}) /\ UNCHANGED <<ph, rs>>
 
-TVal  == /\ Is("val") /\ alive[Ev.t]
+TVal  == /\ Is("val") /\ alive[Ev.t] /\ ~(AF /\ Ev.rc = "err")
          /\ bad' = Fails({<<"C01", Ev.rc = "ok">>,
                           <<"C01", Ev.res = Validity(tabs[Ev.t], Ev.q, Ev.a)>>,
                           <<"C01", Has("why") => ReasonOK(tabs[Ev.t], Ev.q, Ev.a, Ev.res, Ev.why)>>})
@@ -63,7 +67,7 @@ TReset == /\ Is("reset") /\ bad' = {}
 TraceInit == /\ tabs = [t \in T |-> {}] /\ hascb = [t \in T |-> FALSE] /\ alive = [t \in T |-> FALSE]
              /\ mirror = [t \in T |-> {}] /\ pending = FALSE /\ rc = "ok" /\ cbs = {}
              /\ ph = "idle" /\ rs = "A" /\ l = 1 /\ bad = {}
-TraceNext == TInit \/ TAdd \/ TRm \/ TSrcRm \/ TFailedOp \/ TFree \/ TFreeQ \/ TCopy \/ TSwap \/ TDiff
+TraceNext == TInit \/ TAdd \/ TRm \/ TSrcRm \/ TSrcRmFailed \/ TValFailed \/ TFailedOp \/ TFree \/ TFreeQ \/ TCopy \/ TSwap \/ TDiff
              \/ TVal \/ TEnum \/ TReset
 TraceSpec == TraceInit /\ [][TraceNext]_tvars
 
